@@ -10,7 +10,7 @@ from vf.core import LibRaised, Result, lib
 ID = "C14"
 TITLE = "Brooks-Corey relative permeabilities are finite, within [0, k_max] and monotone"
 LEVEL = "exploration"
-BUDGET = {"quick": 6000, "thorough": 1000000}
+BUDGET = {"quick": 9600, "thorough": 1000000}
 SHRINK = {"quick": True, "thorough": True}
 FUZZ = {"thorough": 6000}  # executions per atheris process (16 processes), after the Hypothesis search
 RULE = (
